@@ -485,7 +485,7 @@ kll_sketch<T, C, A> kll_sketch<T, C, A>::deserialize(std::istream& is, const Ser
   }
   levels[num_levels] = capacity;
   check_levels(levels, num_levels, n);
-  optional<T> tmp; // space to deserialize min and max
+  item_space<T> tmp; // space to deserialize min and max
   optional<T> min_item;
   optional<T> max_item;
   if (!is_single_item) {
@@ -572,7 +572,7 @@ kll_sketch<T, C, A> kll_sketch<T, C, A>::deserialize(const void* bytes, size_t s
   }
   levels[num_levels] = capacity;
   check_levels(levels, num_levels, n);
-  optional<T> tmp; // space to deserialize min and max
+  item_space<T> tmp; // space to deserialize min and max
   optional<T> min_item;
   optional<T> max_item;
   if (!is_single_item) {
